@@ -22,6 +22,7 @@ structure DState where
   prev   : Option Sync.Frozen := none
   recent : List Nat := []
   srv    : Server.Srv := Server.Srv.init 0 0
+  conn   : Conn.St := Conn.St.init false false
   lbox   : Mailbox.MBox := Mailbox.MBox.new
   lobs   : List (Sync.View × Option Nat) := []
 
@@ -44,6 +45,34 @@ def parseSet (elems : String) : List Seq.Elem :=
     | [a] => Seq.Elem.one (idx a)
     | [a, b] => Seq.Elem.range (idx a) (idx b)
     | _ => Seq.Elem.one .star)
+
+def optNat (s : String) : Option Nat := if s == "-" then none else s.toNat?
+
+def parseConnCmd (t : String) : Conn.Cmd :=
+  match t.splitOn ":" with
+  | ["cap"] => .capability
+  | ["noop"] => .noop
+  | ["logout"] => .logout
+  | ["id"] => .id
+  | ["starttls"] => .starttls
+  | ["login", who] => .login (optNat who)
+  | ["auth", off, ex, who] => .authenticate (off == "1") (ex == "1") (optNat who)
+  | ["select", name, ex, be] => .selectCmd name.toNat! (ex == "1") (if be == "-" then none else some (be == "1"))
+  | ["mbox", ok] => .mailboxCmd (ok == "1")
+  | ["inboxguard"] => .inboxGuard
+  | ["check"] => .check
+  | ["close"] => .close
+  | ["msg", w, ok] => .msgCmd (w == "1") (ok == "1")
+  | ["idle", ok] => .idle (ok == "1")
+  | _ => .invalid
+
+def showConnResp : Conn.Resp → String
+  | .ok => "OK" | .no => "NO" | .bad => "BAD" | .byeOk => "BYE+OK" | .badBye => "BYE+BAD"
+
+def showConnSt (s : Conn.St) : String :=
+  (match s.user with | some u => toString u | none => "-") ++ " " ++
+  (match s.selected with | some (n, ro) => s!"{n}:{if ro then 1 else 0}" | none => "-") ++ " " ++
+  (if s.closed then "closed" else "open") ++ " " ++ (if s.loginOff then "nomech" else "mech")
 
 def srvOut (st : DState) (r : Server.Srv × Server.Resp) : DState × String := ({ st with srv := r.1 }, showResp r.2)
 
@@ -76,6 +105,10 @@ def handle (st : DState) (line : String) : DState × String :=
       | none => []
       | some p => Sync.compare p fr (hide == "1") [] (wu == "1") false
     ({ st with prev := some fr }, if out.isEmpty then "-" else " ".intercalate (out.map showUntagged))
+  | ["conn", "reset", lo, tls] => ({ st with conn := Conn.St.init (lo == "1") (tls == "1") }, "ok")
+  | ["conn", "step", c] =>
+    let r := Conn.step st.conn (parseConnCmd c)
+    ({ st with conn := r.1 }, showConnResp r.2 ++ " " ++ showConnSt r.1)
   | ["log", "reset"] => ({ st with lbox := Mailbox.MBox.new, lobs := [] }, "ok")
   | ["log", "observer", _] => ({ st with lobs := st.lobs ++ [(Sync.View.empty, none)] }, "ok")
   | ["log", "update", us] =>
